@@ -88,14 +88,25 @@ def build_app(variant=0):
         if fn:
             fn(name, req)
 
-    @app.before_response()
-    def before(req):
-        point(req, "before")
+    # hook counts differ between the variants (more after than before hooks, none at all, ...)
+    nb, na = {3: (0, 2), 4: (2, 0)}.get(variant, (1, 1))
 
-    @app.after_response()
-    def after(req, res):
-        point(req, "after")
-        return res
+    def mk_before(i):
+        def before(req):
+            point(req, "before")
+        before.__name__ = "before%d" % i
+        return before
+
+    def mk_after(i):
+        def after(req, res):
+            point(req, "after")
+            return res
+        after.__name__ = "after%d" % i
+        return after
+    for i in range(nb):
+        app.add_before_response(mk_before(i))
+    for i in range(na):
+        app.add_after_response(mk_after(i))
 
     @app.route("/hit", method=state.METHOD_ALL)
     def hit(req):
@@ -477,12 +488,12 @@ def generate(rng, tier):
     for a in names:
         for b in names:
             if big or rng.random() < 0.12:
-                cases.append("C17 hist %d %s,%s" % (rng.randrange(3), a, b))
+                cases.append("C17 hist %d %s,%s" % (rng.randrange(5), a, b))
     for _ in range(6000 if big else 250):
-        cases.append("C17 hist %d %s" % (rng.randrange(3), ",".join(rng.choice(names) for _ in range(3))))
+        cases.append("C17 hist %d %s" % (rng.randrange(5), ",".join(rng.choice(names) for _ in range(3))))
     # two applications in one process
     for _ in range(1500 if big else 120):
-        cases.append("C17 two %d %d %s" % (rng.randrange(3), rng.randrange(3),
+        cases.append("C17 two %d %d %s" % (rng.randrange(5), rng.randrange(5),
                                          ",".join("%s%s" % (rng.choice("AB"), rng.choice(names)) for _ in range(3))))
     # interleavings
     inter = ["hit", "hit2", "stream", "stream2", "crash", "abort403", "form", "json", "debug-info", "auth-none", "auth-ok",
@@ -490,7 +501,7 @@ def generate(rng, tier):
     for _ in range(2500 if big else 200):
         k = rng.choice([2, 2, 3])
         kinds = [rng.choice(inter) for _ in range(k)]
-        cases.append("C17 inter %d %s %d" % (rng.randrange(3), ",".join(kinds), rng.randrange(1 << 30)))
+        cases.append("C17 inter %d %s %d" % (rng.randrange(5), ",".join(kinds), rng.randrange(1 << 30)))
     if big:
         for a, b in itertools.product(["hit", "stream", "crash", "debug-info", "auth-ok", "form"], repeat=2):
             cases.append("C17 interall 0 %s,%s" % (a, b))
